@@ -235,7 +235,8 @@ NOT proved at this strength.  Item (i) below is CLOSED since round 5 for members
 DEPENDENT (SMA, EMA, RMA, WMA, ROC, Counter, Amorph × 20, STDEV, RSI, MACD, KC, BBANDS, STDEVTHRES, HMA, STOCH, TSI) over a source
 member's reading or dict field, every one of the 27 classes as a SOURCE, chains of any length, any timeframe / fill – the hypothesis
 `AttrInput input` generalised to `InputVia` (the input column is a function of the bare row and the entries under the read keys,
-stable under the tree's own writes).  Still missing of (i): members on DIFFERENT timeframes.  Original list: (i) inputs that are other indicators' readings are proved for the standard
+stable under the tree's own writes).  (Members on DIFFERENT timeframes cannot feed each other in the library: a dependent reads its input from its own manager's
+candles, where the other manager's readings do not exist – nothing to prove there.)  Original list: (i) inputs that are other indicators' readings are proved for the standard
 pattern only (`C01_chain_covered`, `C01_chain_any_length`: dependent SMA / EMA / RMA / WMA / ROC members over a source member on
 the same manager); not for dependent composites (RSI over an EMA, …), sources without a component instance (ATR, RSI, VWAP, STDEV,
 HMA, the non-average leaves) or members on different timeframes;
